@@ -297,9 +297,11 @@ class SymInt(int):
         r = s.__eq__(o)
         return r if r is NotImplemented else SymBool(z3.Not(r.z))
     def __bool__(s):
+        # truth value of a value just opened by output(): the restart test of a Las-Vegas loop (True = restart)
+        retry = True if getattr(s, 'opened', False) else None
         if s.P is not None:
-            return C.branch(z3.Not(is_zero_formula(s)))
-        a = s.mat(); return C.branch(a.z != 0)
+            return C.branch(z3.Not(is_zero_formula(s)), retry_if=retry)
+        a = s.mat(); return C.branch(a.z != 0, retry_if=retry)
     def __hash__(s): return id(s)
     def __index__(s): raise Concretised('__index__ of symbolic value')
     def __int__(s): raise Concretised('__int__ of symbolic value')
